@@ -299,4 +299,25 @@ def passHypB : SWorld → List (Nat × List Nat) → Bool
            p.2.isPerm (sortKeys (nodesOf t))) && passHypB r.world rest
     else true
 
+/-- executable hypothesis of `C12_passF_refines_passW`: at every sort the pass performs, `node.graph` names the graph
+    whose container lists the node (`Consistent`) -/
+def passConsB : FWorld → List (Nat × List Nat) → Bool
+  | _, [] => true
+  | w, p :: rest =>
+    (match unfoldG w.sw w.sw.fuel p.1 with
+     | none => true
+     | some t => decide (Consistent w (nodesOf t))) &&
+    (if (sortF w p.2 p.1).out = .ok then passConsB (sortF w p.2 p.1).world rest else true)
+
+/-- executable hypothesis of `C12_pass_success_sorted`: no LATER sort of the pass writes the container of a graph of
+    the tree this sort orders (the graph-likes of a model are disjoint trees) -/
+def passDisjB : SWorld → List (Nat × List Nat) → Bool
+  | _, [] => true
+  | w, p :: rest =>
+    (match unfoldG w w.fuel p.1 with
+     | none => true
+     | some t => (passSortsW (sortW w p.2 p.1).world rest).trace.all
+         (fun q => !(((allGraphs t).map Prod.fst).contains q.1))) &&
+    passDisjB (sortW w p.2 p.1).world rest
+
 end IrVerif.Sort
